@@ -12,6 +12,11 @@ CHECKS = {
             "Seeded deterministic-simulation search: the real RF24 drivers exchange payloads through a datasheet-derived chip model and a shared air with injected packet/ACK loss; oracles compare SPI uploads, the peer's read() stream and the caller's buffers with the statement. Sampling, not proof.",
             "Trusts the chip/air model (M1,M3,M4,M8); compatible pairs only; faults leave one attempt+ACK intact.",
             "5 C01"),
+    "C02": ("fault_enumeration",
+            "deterministic simulation with enumerated per-attempt fault vectors (packet lost / ACK lost / delivered) plus seeded send/resend histories, blackouts and peer states",
+            "Every attempt of a payload gets a fate; all fate vectors are enumerated for small arc/force_retry and the first-success/all-fail families for every arc; seeded histories beyond. Return values, call duration and air packets are compared with the chip model's record of each transmit cycle.",
+            "Trusts the chip/air model (M1,M2,M3,M4,M6,M7,M9); PTX enters TX mode via listen=False.",
+            "5 C02"),
 }
 
 REASON_PENDING = "check not built yet in this commit (planned, see DESIGN.md section 5)"
